@@ -1,5 +1,6 @@
 import UxVerif.Model.Proto
 import UxVerif.Model.Incidence
+import UxVerif.Lemmas.C03Fast
 
 namespace UxVerif.Driver.C03
 open UxVerif UxVerif.Proto UxVerif.Incidence
@@ -31,10 +32,22 @@ def handle (cmd : String) (args : List Int) : Option String :=
   | "C03.model" => do
       let i ← run inP args
       pure (encOut (build i.n i.w i.t i.FE i.N i.nEdge))
+  -- `preFast = decide Pre` (C03.preFast_eq), `failingFast = failing` (C03.failingFast_eq): the
+  -- verdicts are the specification's own Booleans, computed without re-scanning the face table
+  -- for every edge / pair of faces
   | "C03.pre" => do
+      let i ← run inP args
+      pure (encBool (preFast i.n i.t i.FE i.N i.nEdge))
+  | "C03.pre_ref" => do
       let i ← run inP args
       pure (encBool (decide (Pre i.n i.t i.FE i.N i.nEdge)))
   | "C03.spec" => do
+      let (i, (o, holesNat)) ← run (do let i ← inP; let o ← outP; pure (i, o)) args
+      let fl0 := failingFast i.n i.t i.FE i.N i.nEdge o
+      let fl := if holesNat || fl0.contains "holes" then fl0 else fl0 ++ ["holes"]
+      pure (if fl.isEmpty then "ok" else "fail " ++ ",".intercalate fl)
+  -- the specification's decidable instance itself (O(F³·E)): small cases only, cross-check
+  | "C03.spec_ref" => do
       let (i, (o, holesNat)) ← run (do let i ← inP; let o ← outP; pure (i, o)) args
       let fl0 := failing i.n i.t i.FE i.N i.nEdge o
       let fl := if holesNat || fl0.contains "holes" then fl0 else fl0 ++ ["holes"]
